@@ -4,8 +4,8 @@ from .lib import *
 RULE = ("scripts: GET / DELETE / OPTIONS / CONNECT (answered by a non-2xx status) / POST whose late 100 Continue arrives in front of the response in the same window; response head with Content-Length N (N from {0,1,2,5,255,256,65535,65536,70000} "
         "and random; huge values 2^32+1, 2^64-1 with a partial body) or close-delimited (no framing header; Transfer-Encoding without a "
         "final chunked; chunked on an HTTP/1.0 response), followed by "
-        "the body and by trailing bytes of a next response; arrival schedules all-at-once / 1-byte / random, output sizes "
-        "{0,1,2,3,random,large}; reads continue after the end; a framed non-empty body must be entered (RecvBody). non-trivial = RecvBody reached and >= 1 byte delivered "
+        "the body and by trailing bytes of a next response; a non-chunked Transfer-Encoding next to the Content-Length, a Location field on non-redirects, heads arriving in two pieces; arrival schedules all-at-once / 1-byte / random, output sizes "
+        "{0,1,2,3,random,large}; reads continue after the end; a framed non-empty body must be entered (RecvBody). An eighth of the scripts use the single-call API (Call::try_response / into_body / read / is_ended) with explicit windows. non-trivial = RecvBody reached and >= 1 byte delivered "
         "(or N = 0 handled); distinct = distinct op lists")
 TRUSTED_BASE = COMMON_TRUSTED_BASE
 ASSUMPTIONS = ["64-bit usize", "head parsing is C05's subject; here heads are simple and always arrive completely before the body phase starts"]
@@ -23,7 +23,7 @@ def gen_one(rng, big):
     close = rng.random() < 0.3
     _stats["framing"]["close" if close else "length"] = _stats["framing"].get("close" if close else "length", 0) + 1
     version = rng.choice(["1.1", "1.1", "1.0"])
-    status = rng.choice([200, 200, 201, 404, 500, 301, 302])
+    status = rng.choice([200, 200, 201, 201, 404, 500, 301, 302])
     if close:
         n = None
         blen = rng.randrange(0, 400)
@@ -48,8 +48,13 @@ def gen_one(rng, big):
             n = rng.choice([2 ** 32 + 1, 2 ** 64 - 1])
         blen = n if n <= 70000 else rng.randrange(0, 300)
         fields = [(b"Content-Length", str(n).encode())]
+        if rng.random() < 0.15:
+            # a Transfer-Encoding that does not list chunked does not frame the body: the Content-Length still does
+            fields.insert(rng.choice([0, 1]), (b"Transfer-Encoding", rng.choice([b"identity", b"gzip", b"deflate, gzip"])))
     if status in (301, 302):
         fields.append((b"Location", b"/next"))
+    elif status == 201 or rng.random() < 0.1:
+        fields.insert(0, (b"Location", b"/created/7"))      # a Location field on a response that is not a redirect
     if rng.random() < 0.2:
         fields.append((b"Connection", b"keep-alive"))
     head = render_response_head(version, status, b"OK", fields)
@@ -76,8 +81,15 @@ def gen_one(rng, big):
                 "q_can_proceed", "proceed", "q_body_mode", "q_can_proceed"]
     else:
         ops = [op_new(method, "1.1", "http", "a.test", "/", []),
-               "proceed", "write_head #4096", "proceed", "stream %s" % hx(stream),
-               "arrive %s" % num(len(head)), "try_response", "q_can_proceed", "proceed", "q_body_mode", "q_can_proceed"]
+               "proceed", "write_head #4096", "proceed", "stream %s" % hx(stream)]
+        if rng.random() < 0.4 and status // 100 != 3:
+            # the head arrives in two pieces (cut anywhere, often right after a field line): nothing is returned before it is complete
+            ends = [k + 2 for k in range(len(head) - 2) if head[k:k + 2] == b"\r\n"][:-1]
+            cut = rng.choice(ends) if ends and rng.random() < 0.6 else rng.randrange(1, len(head))
+            ops += ["arrive %s" % num(cut), "try_response", "arrive %s" % num(len(head) - cut)]
+        else:
+            ops += ["arrive %s" % num(len(head))]
+        ops += ["try_response", "q_can_proceed", "proceed", "q_body_mode", "q_can_proceed"]
     # arrival + read schedule
     mode = rng.choice(["all", "one", "random", "random"])
     remaining = len(stream) - len(head) - len(pre)
@@ -107,9 +119,84 @@ def gen_one(rng, big):
     return {"ops": ops, "meta": {"n": n, "head": len(head), "body": body.hex(), "trailing": len(trailing), "status": status, "pre": len(pre)}}
 
 
+def gen_call(rng):
+    """The same bodies through the single-call API (Call::try_response, into_body, read, is_ended): the windows are explicit, so the
+    generator presents exactly the unconsumed bytes itself (it knows what a read must consume: min(window, output space, remaining))."""
+    close = rng.random() < 0.3
+    version = rng.choice(["1.1", "1.0"])
+    if close:
+        n = None
+        blen = rng.randrange(0, 200)
+        fields = [] if rng.random() < 0.6 else [(b"Transfer-Encoding", b"gzip")]
+        if fields:
+            version = "1.1"
+    else:
+        n = rng.choice([0, 1, 2, 5, 255, 256, rng.randrange(0, 400)])
+        blen = n
+        fields = [(b"Content-Length", str(n).encode())]
+    method = rng.choice(["GET", "DELETE", "POST"])
+    status = rng.choice([200, 404, 500])
+    head = render_response_head(version, status, b"OK", fields)
+    body = patt(blen, rng)
+    rest = body + NEXT
+    ops = call_recv_prelude(method) + ["raw_try_response %s" % hx(head + rest[:rng.choice([0, 0, 3])]), "q_is_finished", "proceed"]
+    expect = []          # per raw_read: (op index, consumed = produced, data)
+    pos = 0
+    for _ in range(rng.randrange(1, 12)):
+        k = rng.choice([0, 1, 2, 3, rng.randrange(0, 40), len(rest)])
+        win = rest[pos:pos + k]
+        cap = rng.choice([0, 1, 2, 3, rng.randrange(0, 64), 100000])
+        want = min(len(win), cap) if close else min(len(win), cap, n - pos)
+        expect.append((len(ops), want))
+        ops.append("raw_read %s %s" % (hx(win), num(cap)))
+        pos += want
+        if rng.random() < 0.3:
+            expect.append((len(ops), "ended" if (not close and pos == n) else "open"))
+            ops.append("q_is_finished")
+    _stats["framing"]["call-api"] = _stats["framing"].get("call-api", 0) + 1
+    return {"ops": ops, "meta": {"n": n, "head": len(head), "body": body.hex(), "trailing": len(NEXT), "status": status, "api": "call",
+                                 "expect": expect, "enter": len(ops) - 1 - len([e for e in expect])}}
+
+
+def oracle_call(script, obs):
+    meta = script["meta"]
+    ops = script["ops"]
+    if any(o == "panic" for o in obs):
+        return ["panic (single-call API)"]
+    n = meta["n"]
+    close = n is None
+    body = bytes.fromhex(meta["body"])
+    i = next(k for k, op in enumerate(ops) if op.startswith("raw_try_response"))
+    if not obs[i].startswith("some #%d " % meta["head"]):
+        return ["single-call API: the head was not returned with exactly its %d bytes consumed: %s" % (meta["head"], obs[i][:50])]
+    if obs[i + 1] != "true":
+        return ["single-call API: Call::is_finished false after the head"]
+    want_enter = "call RecvBody" if (close or True) else None
+    if obs[i + 2] != "call RecvBody":
+        return ["single-call API: Call::into_body gave %s for a %s body" % (obs[i + 2], "close-delimited" if close else "Content-Length %d" % n)]
+    delivered = b""
+    for idx, want in meta["expect"]:
+        o = obs[idx]
+        if isinstance(want, str):
+            if (o == "true") != (want == "ended"):
+                return ["single-call API: Call::is_ended = %s after %d of %s body bytes" % (o, len(delivered), "N=%d" % n if not close else "a close-delimited body")]
+            continue
+        p = ops[idx].split(" ")
+        win = unhex(p[1])
+        if not o.startswith("ok "):
+            return ["single-call API: read failed: %s" % o]
+        ci, co, data = parse_counts(o)
+        if ci != want or co != want or data != win[:want]:
+            return ["single-call API: expected %d bytes verbatim (window %d, cap %s), got consumed=%d produced=%d" % (want, len(win), p[2], ci, co)]
+        delivered += data
+    if delivered != (body + NEXT)[:len(delivered)]:
+        return ["single-call API: delivered bytes differ from the offered bytes"]
+    return []
+
+
 def generate(rng, tier, mult):
     count = (1200 if tier == "quick" else 10000) * mult
-    return [gen_one(rng, big=(i % 25 == 0)) for i in range(count)]
+    return [gen_one(rng, big=(i % 25 == 0)) for i in range(count)] + [gen_call(rng) for _ in range(count // 8)]
 
 
 def stats():
@@ -126,6 +213,8 @@ def corpus():
 
 
 def oracle(script, obs):
+    if script["meta"].get("api") == "call":
+        return oracle_call(script, obs)
     fails = []
     meta = script["meta"]
     n = meta["n"]
@@ -228,6 +317,8 @@ def oracle(script, obs):
 
 
 def nontrivial(script, obs):
+    if script["meta"].get("api") == "call":
+        return any(o == "call RecvBody" for o in obs)
     reached = any(o == "state RecvBody" for o in obs)
     moved = any(op.startswith("read") and o.startswith("ok ") and parse_counts(o)[0] > 0 for op, o in zip(script["ops"], obs))
     return (reached and moved) or script["meta"]["n"] == 0
